@@ -33,6 +33,8 @@ for d in sorted(os.listdir(root)):
     suite = rd('suite_with_patch.txt')
     own = rd('own_check.txt')
     prop = am.get('property', d.split('-')[0])
+    if own and 'exit=1' in own and prop not in detected:
+        detected = sorted(detected + [prop])
     meta = {
         'id': d,
         'breaks_property': prop,
